@@ -17,10 +17,10 @@ func init() {
 	registerProp(&Property{
 		ID: "C02", Kind: "necessary structural clauses",
 		Tech:  "dominance/ordering rules on Layout, effect-contract checks (Reverse involution, inverse pairs), field-ownership table, typed-AST output mapping",
-		Rules: []string{"ORD-2", "ORD-3", "EFF-1", "EFF-2", "PAIR-2", "PAIR-3", "OWN-1"},
+		Rules: []string{"ORD-2", "ORD-3", "EFF-1", "EFF-2", "PAIR-2", "PAIR-3", "OWN-1", "SPLIT-1"},
 		Explanation: "Decides the undo structure and the output mapping, not the multiset equality itself: ORD-2 restore and un-reverse happen after the pipeline and before collection; EFF-1 Reverse is an involution on direction/flag/adjacency; EFF-2 fragments and self-loops: every add has its remove; " +
 			"PAIR-2 un-reverse exactly the flagged edges; PAIR-3 ID/direction/size copied from the right fields, helper nodes filtered unless requested, no other node or edge dropped; OWN-1 Edge.Points written only by routers (which never see self-loops), Node.W/H written only by the two option closures, IsVirtual/ID only at construction; " +
-			"ORD-3 fixed size first, per-node override second and only for listed nodes. Not decided: that break/merge are exact inverses on every chain (the count of edges).",
+			"ORD-3 fixed size first, per-node override second and only for listed nodes; SPLIT-1 the component traversal records every node and edge it reaches. Not decided: that break/merge are exact inverses on every chain (the count of edges).",
 		Assumptions: []string{"clauses are necessary, not sufficient"},
 	})
 	registerProp(&Property{
